@@ -324,7 +324,10 @@ func confineGenInstall(r *Rng) confineCase {
 
 func confineGenTransport(r *Rng) confineCase {
 	c := confineCase{Kind: "transport", Value: Pick(r, confineEtags), URL: Pick(r, []string{"/x86_64/APKINDEX.tar.gz", "/os/x86_64/APKINDEX.tar.gz", "/keys/k.rsa.pub",
-		"/../../../w/r/canary/APKINDEX.tar.gz", "/os/../../../x86_64/APKINDEX.tar.gz", "/x86_64/..", "/x86_64/%2e%2e/%2e%2e/APKINDEX.tar.gz", "/..", "/x86_64/../../../../../../../{T}/w/r/canary/APKINDEX.tar.gz"})}
+		"/../../../w/r/canary/APKINDEX.tar.gz", "/os/../../../x86_64/APKINDEX.tar.gz", "/x86_64/..", "/x86_64/%2e%2e/%2e%2e/APKINDEX.tar.gz", "/..", "/x86_64/../../../../../../../{T}/w/r/canary/APKINDEX.tar.gz",
+		// the query is not part of the vetted path: whatever is derived from it must not name a place either
+		"/keys/k.rsa.pub?/../../../../canary/pwn/x", "/x86_64/APKINDEX.tar.gz?/../../../../../../../../../../{T}/w/r/canary/q/x", "/x86_64/APKINDEX.tar.gz?a=/../../../../canary/x",
+		"/keys/k.rsa.pub?/../../../../../../../../../../{T}/w/r/canary/pwn/x", "/x86_64/APKINDEX.tar.gz?..", "/x86_64/APKINDEX.tar.gz?%2f..%2f..%2f..%2fcanary%2fx"})}
 	c.Hdr = Pick(r, []string{"etag", "etag", "etag", "noetag"})
 	return c
 }
@@ -339,7 +342,8 @@ func confineGenKeyring(r *Rng) confineCase {
 	} else {
 		c.Hdr = "initkeyring"
 		c.Names = []string{Pick(r, []string{"https://repo.test/keys/k.rsa.pub", "https://repo.test/keys/..", "https://repo.test/keys/.", "https://repo.test/keys/%2e%2e%2f%2e%2e%2fx", "https://repo.test/",
-			"https://repo.test/keys/..%2f..%2f..%2f..%2f..%2fcanary%2fpwn", "{REPO}/k.rsa.pub", "{REPO}/sub/..", "{REPO}/../w/r/canary/sentinel", "https://repo.test/keys/a%20b", "https://repo.test/keys/k.rsa.pub?x=../../y"})}
+			"https://repo.test/keys/..%2f..%2f..%2f..%2f..%2fcanary%2fpwn", "{REPO}/k.rsa.pub", "{REPO}/sub/..", "{REPO}/../w/r/canary/sentinel", "https://repo.test/keys/a%20b", "https://repo.test/keys/k.rsa.pub?x=../../y",
+			"https://repo.test/keys/k.rsa.pub?/../../../../../canary/pwn/x", "https://repo.test/keys/k.rsa.pub?/../../../../../../../../../../{T}/w/r/canary/pwn/x"})}
 	}
 	return c
 }
